@@ -37,8 +37,13 @@ def run_timeout(seconds: float, func, *args, **kwargs):
             # Only not being ready in time is a timeout: an exception of the function itself (which may well be a
             # TimeoutError) is re-raised as it is
             result = pool.apply_async(_call)
-            result.wait(seconds)
-            if result.ready():
+            interrupted = None
+            try:
+                result.wait(seconds)
+            except BaseException as e:
+                # Nested time limits: this (waiting) thread is itself interrupted, the function may not be left running
+                interrupted = e
+            if interrupted is None and result.ready():
                 success, value = result.get()
                 if success:
                     return value
@@ -48,6 +53,8 @@ def run_timeout(seconds: float, func, *args, **kwargs):
             ctypes.pythonapi.PyThreadState_SetAsyncExc(
                 ctypes.c_long(thread.ident), ctypes.py_object(KeyboardInterrupt))
             thread.join()
+        if interrupted is not None:
+            raise interrupted
         raise _LimitReached
 
     # This call flow ensure that the memory of the "killed" thread is cleared
